@@ -763,3 +763,66 @@ theorem inv_probe (n : Naming) (k : SKey) (short : ShortKey) (ok : Bool) (h : In
       · exact ⟨s, i, by simp only [AL.get?_set_other _ _ _ _ e2]; exact g1, g2, g3, g4, g5⟩
 
 end RNacos.Naming
+
+namespace RNacos.Naming
+
+/-! ### a change of the process range (`ClusterRefreshProcessRange`) -/
+
+theorem get?_mapVals {κ ν : Type} [DecidableEq κ] (l : List (κ × ν)) (f : κ × ν → ν) (k : κ) :
+    AL.get? (l.map fun e => (e.1, f e)) k = (AL.get? l k).map fun v => f (k, v) := by
+  induction l with
+  | nil => rfl
+  | cons e l ih =>
+    simp only [List.map_cons, AL.get?]
+    by_cases h : e.1 = k
+    · subst h; simp
+    · simp [h, ih]
+
+theorem refreshRange_insts (s : Svc) : s.refreshRange.insts = s.insts := by
+  unfold Svc.refreshRange; rfl
+
+theorem inv_refreshRange (n : Naming) (r : Nat × Nat) (hashOf : SKey → Nat) (h : Inv n) :
+    Inv (n.refreshRange r hashOf) := by
+  unfold Naming.refreshRange
+  have hmap : (n.services.map fun e => if isRange r (hashOf e.1) then (e.1, e.2.refreshRange) else e) =
+      n.services.map fun e => (e.1, if isRange r (hashOf e.1) then e.2.refreshRange else e.2) := by
+    apply List.map_congr_left
+    intro e _
+    split <;> rfl
+  rw [hmap]
+  have hget : ∀ k, AL.get? (n.services.map fun e => (e.1, if isRange r (hashOf e.1) then e.2.refreshRange else e.2)) k =
+      (AL.get? n.services k).map fun v => if isRange r (hashOf k) then v.refreshRange else v := by
+    intro k
+    exact get?_mapVals n.services (fun e => if isRange r (hashOf e.1) then e.2.refreshRange else e.2) k
+  refine ⟨?_, ?_, h.idxNodup, ?_, ?_⟩
+  · unfold AL.NodupKeys
+    simp only [List.map_map, Function.comp_def]
+    exact h.svcKeys
+  · intro k s hs
+    simp only at hs
+    rw [hget k] at hs
+    cases hg : AL.get? n.services k with
+    | none => rw [hg] at hs; cases hs
+    | some v =>
+      rw [hg] at hs
+      simp only [Option.map_some, Option.some.injEq] at hs
+      subst hs
+      split
+      · exact svcInv_refreshRange v (h.svcs k v hg)
+      · exact h.svcs k v hg
+  · intro k
+    simp only
+    rw [hget k, h.idx k]
+    cases AL.get? n.services k <;> simp
+  · intro c ks hc
+    obtain ⟨hn0, ho0⟩ := h.clients c ks hc
+    refine ⟨hn0, ?_⟩
+    intro ik hik
+    obtain ⟨s, i, g1, g2, g3, g4, g5⟩ := ho0 ik hik
+    refine ⟨if isRange r (hashOf ik.skey) then s.refreshRange else s, i, ?_, ?_, g3, g4, g5⟩
+    · simp only; rw [hget ik.skey, g1]; rfl
+    · split
+      · rw [refreshRange_insts]; exact g2
+      · exact g2
+
+end RNacos.Naming
